@@ -255,6 +255,10 @@ pub fn fan_out(info: &PropInfo, verif_seed: u64, lo: u64, hi: u64, workers: usiz
         if deadline.map(|d| Instant::now() > d).unwrap_or(false) {
             break;
         }
+        // when workers keep dying or hanging there is nothing to gain from finishing their ranges
+        if batch.dead.len() >= 6 {
+            break;
+        }
         let more = fan_out(info, verif_seed, a, b, 1, deadline);
         batch.results.extend(more.results);
         batch.dead.extend(more.dead);
@@ -446,7 +450,7 @@ pub fn nontrivial(prop: &str, c: &BTreeMap<String, u64>) -> bool {
         "C15" => g("ddl_in_session") > 0,
         "C16" => g("failed_statements_in_session") > 0,
         "C10" => g("runs_with_splits") > 0,
-        "C11" => g("pages_freed") > 0 && g("allocations_from_free_list") > 0,
+        "C11" => (g("pages_freed") > 0 && g("allocations_from_free_list") > 0) || g("audits_with_nonempty_free_list") > 0,
         "C14" => g("context_switches") >= 10 && g("failed_polls") >= 1,
         "C20" => (g("pipe_fragmented_reads") + g("pipe_read_eintr") + g("pipe_short_writes")) > 0 && (g("truncated_streams") + g("garbage_streams") + g("mutated_frames") + g("mangled_frames")) > 0,
         "C17" => g("reads_nonempty_correct") > 0 && (g("reopens") + g("truncations") + g("appends_near_block_size")) > 0,
